@@ -523,7 +523,7 @@ func GenC02(r *Rng, n int, tier string) []PipeIn {
 		cfg := genCfg(r)
 		cfg.Matcher = "re:" + Pick(r, c02Regexes)
 		if r.Chance(1, 8) {
-			cfg.Matcher = "always"
+			cfg.Matcher = Pick(r, []string{"always", "default", "default"})
 		} else if r.Chance(1, 5) {
 			cfg.Matcher = Pick(r, []string{"dissect:%{a} %{b}", "dissect:k=%{v};", "dissect:%{a}:%{b}:%{c}", "dissecti:k=%{v};", "dissecti:ID=%{id} user=%{u};", "dissecti:ID=%{id} user=%{u};"})
 		}
